@@ -1,0 +1,59 @@
+//go:build verif
+
+package renderer
+
+// Contracts of the b6vc verifier (/verif).
+
+// ---- C33: the geometry command stream decodes to the coordinates passed in ---------
+// Decoder view: a cursor starts at the tile origin (StartFeature); each XY appends
+// two zigzag words that decode, relative to the cursor, to exactly (x, y) and
+// moves the cursor there; command words carry (command, count) in 3 + 29 bits.
+// By induction over the calls the stream decodes to the integer points passed in.
+
+//@ func (*Encoder).StartFeature
+//@   requires e.layer != nil
+//@   ensures e.cursorX == e.originX && e.cursorY == e.originY
+//@   ensures e.feature != nil && result == e.feature && len(e.feature.Geometry) == 0 && len(e.feature.Tags) == 0
+
+//@ func (*Encoder).XY
+//@   requires e.feature != nil
+//@   requires x - e.cursorX >= -(1<<31) && x - e.cursorX < 1<<31 && y - e.cursorY >= -(1<<31) && y - e.cursorY < 1<<31
+//@   ensures len(e.feature.Geometry) == old(len(e.feature.Geometry)) + 2
+//@   ensures old(e.cursorX) + zigzagDecode(e.feature.Geometry[old(len(e.feature.Geometry))]) == x
+//@   ensures old(e.cursorY) + zigzagDecode(e.feature.Geometry[old(len(e.feature.Geometry)) + 1]) == y
+//@   ensures e.cursorX == x && e.cursorY == y
+//@   ensures forall(i, 0, old(len(e.feature.Geometry)), e.feature.Geometry[i] == old(e.feature.Geometry[i]))
+
+//@ func (*Encoder).MoveTo
+//@   requires e.feature != nil && 0 <= count && count < 1<<29
+//@   ensures len(e.feature.Geometry) == old(len(e.feature.Geometry)) + 1
+//@   ensures e.feature.Geometry[old(len(e.feature.Geometry))] & 7 == TileCommandMoveTo
+//@   ensures int(e.feature.Geometry[old(len(e.feature.Geometry))] >> 3) == count
+//@   ensures forall(i, 0, old(len(e.feature.Geometry)), e.feature.Geometry[i] == old(e.feature.Geometry[i]))
+//@   ensures e.cursorX == old(e.cursorX) && e.cursorY == old(e.cursorY)
+
+//@ func (*Encoder).LineTo
+//@   requires e.feature != nil && 0 <= count && count < 1<<29
+//@   ensures len(e.feature.Geometry) == old(len(e.feature.Geometry)) + 1
+//@   ensures e.feature.Geometry[old(len(e.feature.Geometry))] & 7 == TileCommandLineTo
+//@   ensures int(e.feature.Geometry[old(len(e.feature.Geometry))] >> 3) == count
+//@   ensures forall(i, 0, old(len(e.feature.Geometry)), e.feature.Geometry[i] == old(e.feature.Geometry[i]))
+//@   ensures e.cursorX == old(e.cursorX) && e.cursorY == old(e.cursorY)
+
+//@ func (*Encoder).ClosePath
+//@   requires e.feature != nil
+//@   ensures len(e.feature.Geometry) == old(len(e.feature.Geometry)) + 1
+//@   ensures e.feature.Geometry[old(len(e.feature.Geometry))] & 7 == TileCommandClosePath
+//@   ensures e.feature.Geometry[old(len(e.feature.Geometry))] >> 3 == 1
+//@   ensures forall(i, 0, old(len(e.feature.Geometry)), e.feature.Geometry[i] == old(e.feature.Geometry[i]))
+
+// Key interning: the index returned for a key names that key in the layer's key
+// table, given (and preserving) the representation invariant that every entry of the
+// lookup map points at its own key.
+//@ func (*Encoder).key
+//@   requires e.layer != nil && e.keys != nil
+//@   requires forall(s, string, implies(haskey(e.keys, s), int(e.keys[s]) < len(e.layer.Keys) && e.layer.Keys[int(e.keys[s])] == s))
+//@   requires len(e.layer.Keys) < 1<<31
+//@   ensures int(result) < len(e.layer.Keys) && e.layer.Keys[int(result)] == key
+//@   ensures forall(s, string, implies(haskey(e.keys, s), int(e.keys[s]) < len(e.layer.Keys) && e.layer.Keys[int(e.keys[s])] == s))
+//@   ensures forall(i, 0, old(len(e.layer.Keys)), e.layer.Keys[i] == old(e.layer.Keys[i]))
